@@ -1,4 +1,5 @@
 import Ypv.Props.C03
+import Ypv.Props.C03Alias
 #print axioms Ypv.C03.set_step_eq_spec
 #print axioms Ypv.C03.set_eq_spec
 #print axioms Ypv.C03.set_ok_eq_spec
@@ -10,3 +11,5 @@ import Ypv.Props.C03
 #print axioms Ypv.C03.opAbs_sound
 #print axioms Ypv.C03.history_refines
 #print axioms Ypv.C03.history_refines_det
+#print axioms Ypv.C03.alias_exact_partial
+#print axioms Ypv.C03.alias_name_unique
